@@ -189,14 +189,30 @@ def run (c : Json) : E Json := do
   -- the three entry points
   let mut res : List (String × Json) := []
   let mut stats : List (String × Json) := []
+  -- `via`: a trusted gateway delegates the decision to the HTTP decision service (`forwardAuth`); the proxy service and
+  -- the Envoy gRPC service receive the logical request itself
+  let via : Option Gateway ← (if isNull c "via" then pure none else do
+    let v ← fld c "via"
+    let m : Option Bytes := match v.getObjVal? "method" with
+      | .ok (.str s) => some s.toList
+      | _ => none
+    pure (some { method := m, tls := boolD v "tls" false, path := ← bytes v "path" }))
+  if via.isSome && !(originForm lr.rawPath && !lr.target.contains '#') then
+    throw "via: the request target is outside the domain on which url.Parse is modelled (origin form, no #)"
   for ep in [EP.decision, EP.envoy, EP.proxy] do
     -- `listen`: the server in front of the handler chain refuses a head that exceeds the read buffer limit (431)
-    if !reachesChain cfg.limits ep lr then
+    let wire := match via, ep with
+      | some g, .decision => forwardAuth g lr
+      | _, _ => lr
+    if !reachesChain cfg.limits ep wire then
       res := res ++ [(epName ep, Json.mkObj [("dec", jstr "status-431"), ("status", jnat 431), ("spy", Json.null),
                                               ("up", Json.null)])]
       stats := stats ++ [(epName ep, jstr "head-too-large")]
       continue
-    match mkCtx I cfg.D cfg.logLevel pack ep lr with
+    let entry := match via, ep with
+      | some g, .decision => mkCtxFwd cfg.D cfg.logLevel g lr
+      | _, _ => mkCtx I cfg.D cfg.logLevel pack ep lr
+    match entry with
     | none => res := res ++ [(epName ep, Json.mkObj [("dec", jstr "badrequest")])]
     | some e =>
       let o := finalize cfg.respond e.client e.payload ep (execute cfg e.funcs e.ctx)
@@ -212,7 +228,10 @@ def run (c : Json) : E Json := do
   let specJson := Json.mkObj [
     ("wellformed", Json.bool (Spec.wellFormed lr)),
     ("covered", Json.bool (Spec.covered I lr)),
-    ("fits", Json.bool (Spec.fits cfg.limits lr)),
+    ("fits", Json.bool (Spec.fits cfg.limits lr && (match via with
+      | some g => Spec.fits cfg.limits (forwardAuth g lr)
+      | none => true))),
+    ("forwardable", Json.bool (Spec.forwardable lr)),
     ("head_bytes", jnat lr.headLength),
     ("single_valued", Json.bool (Spec.singleValued sp)),
     ("delivered", Json.mkObj ([EP.decision, EP.envoy, EP.proxy].map fun ep =>
